@@ -138,6 +138,7 @@ static std::string caseOut(const std::string& b)
 	String l = s.toLowerCase();
 	if (u.length() < 0 || l.length() < 0) return "err negative";
 	if ((*u)[u.length()] != 0 || (*l)[l.length()] != 0) return "err unterminated";
+	if (memchr(*u, 0, u.length()) || memchr(*l, 0, l.length())) return "err embedded-nul (length() is not the offset of the terminator)";
 	bool le = u.length() <= (int)b.size() && l.length() <= (int)b.size();
 	return "up=" + lenhex(u) + " lo=" + lenhex(l) + " le=" + (le ? "1" : "0");
 }
